@@ -135,12 +135,15 @@ type pool struct {
 	junk     fileSpec
 }
 
-func buildPool(dir string, r *gen.Rand) (*pool, error) {
+func buildPool(dir string, r *gen.Rand, quick bool) (*pool, error) {
 	if err := os.MkdirAll(dir, 0o755); err != nil {
 		return nil, err
 	}
 	p := &pool{dir: dir}
 	names := []string{"r0", "r1", "github.com/a/b", "r3", "r4", "x-y.z", "r6", "r7"}
+	if quick {
+		names = names[:4] // same fixtures as the first five of the thorough pool (every shard costs a 32 MB builder)
+	}
 	id := uint32(1)
 	for i, n := range names {
 		nd := 1 + r.Intn(3)
@@ -203,8 +206,10 @@ func buildPool(dir string, r *gen.Rand) (*pool, error) {
 	if err := mk("c1", []string{"c1a", "c1b"}, []int{1, 2}, []bool{false, false}); err != nil {
 		return nil, err
 	}
-	if err := mk("c2", []string{"c2a", "c2b"}, []int{1, 1}, []bool{true, true}); err != nil { // everything tombstoned
-		return nil, err
+	if !quick {
+		if err := mk("c2", []string{"c2a", "c2b"}, []int{1, 1}, []bool{true, true}); err != nil { // everything tombstoned
+			return nil, err
+		}
 	}
 	jp := filepath.Join(dir, "junk_v16.00000.zoekt")
 	if err := os.WriteFile(jp, []byte("this is not a shard"), 0o644); err != nil {
@@ -826,7 +831,14 @@ func (j *job) initListing() string {
 
 // ---------------------------------------------------------------- main
 
+type baseEntry struct {
+	once sync.Once
+	res  runResult
+	err  error
+}
+
 type runner struct {
+	bases   sync.Map // scenario (JSON) -> *baseEntry: fault-free traces shared by stored witnesses of one scenario
 	bin     string
 	work    string
 	mu      sync.Mutex
@@ -860,7 +872,15 @@ func (r *runner) run(j *job) {
 	defer os.RemoveAll(j.dir)
 	if len(j.inj) == 0 && j.flt.Label != "" && (j.flt.Kind == "fail" || j.flt.Kind == "kill") {
 		// stored witness: find the labelled operation in a baseline run of the current binary
-		base, err := r.once(j, nil)
+		key, _ := json.Marshal(j.sc)
+		e, _ := r.bases.LoadOrStore(string(key), &baseEntry{})
+		be := e.(*baseEntry)
+		be.once.Do(func() {
+			bj := &job{sc: j.sc, dir: r.fresh()}
+			defer os.RemoveAll(bj.dir)
+			be.res, be.err = r.once(bj, nil)
+		})
+		base, err := be.res, be.err
 		if err != nil {
 			j.err = err
 			return
@@ -1063,12 +1083,58 @@ func faultJobs(sc scenario, base traceResult, r *gen.Rand, perScenario int) []*j
 		}
 		return js
 	}
-	idx := make([]int, len(cands))
-	for i := range idx {
-		idx[i] = i
+	// quick tier: a stratified sample instead of the enumeration — a kill at a directory mutation (rename/remove/create),
+	// a failing rename/remove, for explode the run in which every final rename and clean-up fails, then random others
+	pick := func(pred func(cand) bool, taken map[int]bool) int {
+		var ok []int
+		for i, c := range cands {
+			if !taken[i] && pred(c) {
+				ok = append(ok, i)
+			}
+		}
+		if len(ok) == 0 {
+			return -1
+		}
+		return ok[r.Intn(len(ok))]
 	}
-	gen.Shuffle(r, idx)
-	idx = idx[:perScenario]
+	mutation := func(c cand) bool {
+		return c.f.Sys == "renameat" || c.f.Sys == "unlinkat" || strings.HasPrefix(c.f.Label, "create:")
+	}
+	taken := map[int]bool{}
+	// deterministic picks that carry the ordering argument of the property: the removal of the first input / of the
+	// compound shard fails (nothing may have become visible yet), and a kill on entry to the last rename into place
+	for i, c := range cands {
+		if c.f.Kind == "fail" && strings.HasPrefix(c.f.Label, "remove:z:") {
+			taken[i] = true
+			break
+		}
+	}
+	for i := len(cands) - 1; i >= 0 && len(taken) < perScenario; i-- {
+		if cands[i].f.Kind == "kill" && strings.HasPrefix(cands[i].f.Label, "rename:t:") {
+			taken[i] = true
+			break
+		}
+	}
+	for _, pred := range []func(cand) bool{
+		func(c cand) bool { return c.f.Kind == "kill" && mutation(c) },
+		func(c cand) bool { return c.f.Kind == "fail" && (c.f.Sys == "renameat" || c.f.Sys == "unlinkat") },
+		func(c cand) bool { return true },
+		func(c cand) bool { return true },
+	} {
+		if len(taken) >= perScenario {
+			break
+		}
+		if i := pick(pred, taken); i >= 0 {
+			taken[i] = true
+		}
+	}
+	if i := pick(func(c cand) bool { return c.f.Kind == "all-renames+cleanups" }, taken); i >= 0 {
+		taken[i] = true
+	}
+	var idx []int
+	for i := range taken {
+		idx = append(idx, i)
+	}
 	sort.Ints(idx)
 	for _, i := range idx {
 		js = append(js, &job{sc: sc, flt: cands[i].f, inj: cands[i].inj})
@@ -1149,16 +1215,23 @@ func main() {
 	}
 	defer os.RemoveAll(work)
 	t0 := time.Now()
-	bin, err := buildBinary(work)
-	if err != nil {
-		fmt.Fprintln(os.Stderr, err)
-		os.Exit(3)
-	}
+	// the binary is built while the fixture pool is written
+	var bin string
+	var berr error
+	bdone := make(chan struct{})
+	go func() { bin, berr = buildBinary(work); close(bdone) }()
 	// the fixture pool does not depend on the seed: replay and corpus files name fixtures by file name
-	p, err := buildPool(filepath.Join(work, "pool"), gen.NewRand(12345))
+	p, err := buildPool(filepath.Join(work, "pool"), gen.NewRand(12345), f.Tier != "thorough")
 	if err != nil {
 		panic(err)
 	}
+	tPool := time.Since(t0)
+	<-bdone
+	if berr != nil {
+		fmt.Fprintln(os.Stderr, berr)
+		os.Exit(3)
+	}
+	fmt.Fprintf(os.Stderr, "c35: fixture pool ready after %v\n", tPool.Round(time.Millisecond))
 	fmt.Fprintf(os.Stderr, "c35: binary + fixture pool ready after %v\n", time.Since(t0).Round(time.Millisecond))
 	rn := &runner{bin: bin, work: work}
 	par := 12
@@ -1213,8 +1286,8 @@ func main() {
 	}
 
 	r := gen.NewRand(f.Seed)
-	nScen := f.N(6, 18)
-	perScen := f.N(4, 0) // thorough: every mutation point, fail and kill
+	nScen := f.N(4, 18) // quick: one scenario per class
+	perScen := f.N(2, 0) // + for explode the run in which every final rename and clean-up fails // thorough: every mutation point, fail and kill
 	scs := genScenarios(p, r, nScen)
 	// baselines
 	var bases []*job
